@@ -397,13 +397,118 @@ def rule_gr6(prog):
     return r
 
 
+# documented identifier terminal (doc/source/using_logics.rst, grammar of
+# every logic):  /[a-zA-Z_][a-zA-Z_0-9]*/
+_ID_FIRST = frozenset('abcdefghijklmnopqrstuvwxyzABCDEFGHIJKLMNOPQRSTUVWXYZ_')
+_ID_REST = _ID_FIRST | frozenset('0123456789')
+
+
+def _charset(items):
+    """(set of characters, description of what makes it open-ended) of a
+    regex character class given as re._parser items"""
+    import re._parser as sp
+    chars, open_ = set(), []
+    for (op, av) in items:
+        if op is sp.LITERAL:
+            chars.add(chr(av))
+        elif op is sp.RANGE:
+            if av[1] - av[0] > 512:
+                open_.append('range %r-%r' % (chr(av[0]), chr(av[1])))
+            else:
+                chars |= set(chr(c) for c in range(av[0], av[1] + 1))
+        elif op is sp.CATEGORY:
+            open_.append(str(av).lower().replace('category_', '\\') +
+                         ' (Unicode-aware for str patterns)')
+        elif op is sp.NEGATE:
+            open_.append('negated class')
+        else:
+            open_.append(str(op))
+    return chars, open_
+
+
+def identifier_shape(pattern):
+    """(first set, rest set, open-ended parts) of a terminal of the form
+    <class><class>* ; None when it has another form"""
+    import re._parser as sp
+    try:
+        t = list(sp.parse(pattern))
+    except Exception:
+        return None
+
+    def cls(node):
+        op, av = node
+        if op is sp.IN:
+            return _charset(av)
+        if op is sp.LITERAL:
+            return {chr(av)}, []
+        if op is sp.CATEGORY:
+            return _charset([node])
+        return None
+    if len(t) != 2:
+        return None
+    first = cls(t[0])
+    op, av = t[1]
+    if first is None or op not in (sp.MAX_REPEAT, sp.MIN_REPEAT) or \
+            av[0] != 0 or av[1] is not sp.MAXREPEAT or len(av[2]) != 1:
+        return None
+    rest = cls(av[2][0])
+    if rest is None:
+        return None
+    return first[0], rest[0], first[1] + rest[1]
+
+
+def rule_gr7(prog, G):
+    """the identifier terminal of every grammar denotes the documented set
+    of names, no more (a wider class accepts strings the documented grammar
+    excludes) and no less"""
+    r = RuleResult('R-GR-7', 'the identifier terminal is the documented '
+                   '/[a-zA-Z_][a-zA-Z_0-9]*/')
+    n = 0
+    for lang, g in sorted(G.items()):
+        cands = [(nm, v) for nm, (k, v) in g.terminals.items()
+                 if k == 're' and nm not in g.ignore and
+                 not nm.startswith('ESCAPED')]
+        for nm, pat in cands:
+            sh = identifier_shape(pat)
+            if sh is None:
+                continue        # not an identifier-like terminal
+            n += 1
+            first, rest, open_ = sh
+            extra = sorted((first - _ID_FIRST) | (rest - _ID_REST))
+            missing = sorted((_ID_FIRST - first) | (_ID_REST - rest)) \
+                if not open_ else []
+            r.inst(lang=lang, terminal=nm, pattern=pat, open_ended=open_,
+                   extra=extra[:8], missing=missing[:8])
+            if open_ or extra:
+                r.fail(Finding(
+                    PROP, 'R-GR-7', 'pyModelChecking/%s/parser.py:1' % lang,
+                    '%s.parser.Parser' % lang, 'identifier:%s' % pat,
+                    'the %s grammar reads atom names with /%s/, which '
+                    'accepts more than the documented '
+                    '/[a-zA-Z_][a-zA-Z_0-9]*/ (%s): strings the documented '
+                    'grammar excludes are parsed without an error' % (
+                        lang, pat, '; '.join(open_) or 'also %r' % extra)))
+            elif missing:
+                r.fail(Finding(
+                    PROP, 'R-GR-7', 'pyModelChecking/%s/parser.py:1' % lang,
+                    '%s.parser.Parser' % lang, 'identifier:%s' % pat,
+                    'the %s grammar reads atom names with /%s/, which '
+                    'rejects documented names (no %r)' % (lang, pat,
+                                                          missing[:8])))
+            else:
+                r.ok()
+    floor('R-GR-7', 'identifier terminals', n, 4)
+    return r
+
+
 def run(prog, tier, seed):
     G = c09.grammars(prog)
     T = Attempts()
     r1 = T(c09.rule_rt3, prog, G, PROP, 'R-GR-1')
     r2 = T(c09.rule_rt2, prog, G, PROP, 'R-GR-2')
     results = T.results(r1, r2, T(rule_gr3, prog, G), T(rule_gr4, prog, G),
-                        T(rule_gr5, prog), T(rule_gr6, prog))
+                        T(rule_gr5, prog), T(rule_gr6, prog),
+                        T(rule_gr7, prog, G))
     # lark's LALR builder resolves a conflict silently (shift wins): only a
     # conflict-free grammar is parsed as written, so that the parser accepts
     # exactly the strings the documented productions derive
